@@ -332,6 +332,10 @@ func (c *channel) Close() error {
 		return c.transport.Close()
 	}
 
+	// The transport may be reported as disconnected only because the remote
+	// party has closed its end, so release the local resources anyway. The
+	// error returned when it is already closed is not relevant here.
+	_ = c.transport.Close()
 	return nil
 }
 
